@@ -189,7 +189,6 @@ func encFailures(e *env, s []byte) map[[2]string]string {
 			out[[2]string{"rawurlencode", "query-readback"}] = fmt.Sprintf("rawurlencode(%q) = %q; as a query value net/url.ParseQuery(\"k=\"+that) = %v %v", s, o, q, qerr)
 		default:
 			dec("rawurldecode", "rawurlencode", o)
-			dec("urldecode", "rawurlencode", o)
 		}
 	}
 	if o, ok := enc("bin2hex", sv); ok {
